@@ -125,11 +125,20 @@ func genEncImage(env *Env, key []byte) encImage {
 		regs[len(regs)-1][1] = uint32(nsec) + uint32(r.Intn(3))
 	}
 	// near-miss variants
-	nm := r.Intn(12)
+	nm := r.Intn(13)
 	if big {
 		nm = 99
 	}
 	switch nm {
+	case 4: // a well-formed table that does not fit the first sector (more than 255 regions)
+		n := 256 + r.Intn(200)
+		regs = regs[:0]
+		for i := 0; i < n; i++ {
+			regs = append(regs, [2]uint32{uint32(2 * i), uint32(2*i + 1)})
+		}
+		nsec = 2*n + 2
+		plain = make([]byte, nsec*2048+tail)
+		r.Read(plain)
 	case 0:
 		regs[0][0] = 1
 	case 1:
